@@ -30,6 +30,12 @@ def gen_chrom(rng, name, ids, broken=None):
             links.append((a, da, b, db, 0, tags))
         else:
             links.append((b, FL[db], a, FL[da], 0, tags))     # declared from the other end
+    if broken == "pair":
+        # two linked reference segments: one block, no articulation point, no element of degree one
+        a, La = new(name, 0, 0)
+        b, _ = new(name, La, 0)
+        link(a, "+", b, "+")
+        return segs, links, [a, b]
     so = 0
     nsc = rng.randint(3, 7)
     prev, L = new(name, so, 0)
@@ -109,6 +115,9 @@ def gen_chrom(rng, name, ids, broken=None):
         pc, _ = new("%s_q" % name, 5, 7)
         link(b, "+", pb, "+")
         link(c, "+", pc, "+")
+    if broken == "ring":
+        # a circular contig: the chain closed into a cycle is one biconnected block (no articulation point, no loose end)
+        link(scaff[-1], "+", scaff[0], "+")
     if broken == "haptail":
         # a haplotype segment prolonging the chain end: the last reference node becomes a cut vertex followed by a non-reference bubble-less tail
         # offsets either small or continuing the increasing order (so that only the SN test can reject the chain)
@@ -211,7 +220,7 @@ def make_case(rng):
     ids = idgen(style)
     nchr = rng.randint(1, 3)
     chroms = ["chr%d" % (c + 1) for c in range(nchr)]
-    broken = {c: (rng.choice(["tips", "cycle3", "haptail"]) if rng.random() < 0.3 else None) for c in chroms}
+    broken = {c: (rng.choice(["tips", "cycle3", "haptail", "ring", "pair"]) if rng.random() < 0.3 else None) for c in chroms}
     allsegs, alllinks = [], []
     scaffs = {}
     for c in chroms:
@@ -237,6 +246,11 @@ def make_case(rng):
         alllinks += l1 + l2 + [(sc1[-1], "+", h, "+", 0, []), (h, "+", s2[0][0], "+", 0, [])]
         chroms.append(big)
         broken[big] = "hapjoin"
+    if rng.random() < 0.3:
+        # a chromosome that is one segment without links (a single-segment chrM): a component of one node
+        allsegs.append([next(ids), "chrM", 0, 0, gen.rseq(rng, rng.randint(1, 9)), []])
+        chroms.append("chrM")
+        broken["chrM"] = None
     order = chroms[:]
     rng.shuffle(order)
     return allsegs, alllinks, order, broken
@@ -250,7 +264,7 @@ def main(prop):
                       "each chromosome name has a strict plurality in its component (ties are broken by set order)",
                       "biccs exactness is C15's subject (definition-level checker on the implementation's output, not a general theorem)"]
     ck.canon = ["L lines compared as a multiset", "BO/NO read from the written S lines", "log output ignored"]
-    ck.lean_build({"C06": ["Gaftools.Props.C06", "Gaftools.Props.C06b", "Gaftools.Props.C06c", "Gaftools.Props.C06d", "Gaftools.Props.C06e", "Gaftools.Props.C06f", "Gaftools.Props.TieA2"], "C07": ["Gaftools.Props.C07", "Gaftools.Props.TieA"], "C18": ["Gaftools.Props.C18", "Gaftools.Props.TieA2"]}[prop])
+    ck.lean_build({"C06": ["Gaftools.Props.C06", "Gaftools.Props.C06b", "Gaftools.Props.C06c", "Gaftools.Props.C06d", "Gaftools.Props.C06e", "Gaftools.Props.C06f", "Gaftools.Props.C06g", "Gaftools.Props.TieA2"], "C07": ["Gaftools.Props.C07", "Gaftools.Props.TieA"], "C18": ["Gaftools.Props.C18", "Gaftools.Props.TieA2"]}[prop])
     ck.audit("%s.lean" % prop)
     rng = ck.rng
     quick = ck.tier == "quick"
